@@ -7,11 +7,14 @@
 // real Writable impl of Message, and the bytes are
 //   (1) walked as a foreign receiver walks them (kind, flags, octetsToNextHeader of every
 //       submessage header must lead exactly to the next header / the end of the message),
-//   (2) parsed by the real Message::read_from_buffer; the parsed message must have the same
-//       header and the same sequence of submessages (header, flags, body field by field;
-//       original_bytes ignored; DATA payload up to the zero padding to 4),
-//   (3) serialised again from the PARSED message: same bytes (write(read(b)) == b for
-//       canonical b).
+//   (2) parsed by the real parser: single-submessage shapes by Message::read_from_buffer,
+//       multi-submessage shapes by Header::read_from_buffer + the real
+//       Submessage::read_from_buffer called on the real rest of the message at every submessage
+//       boundary (see roundtrip_l for why); the parsed header / submessages must equal the
+//       built ones (header, flags, body field by field; original_bytes ignored; DATA payload up
+//       to the zero padding to 4) and the parser must continue exactly at the next header.
+// write(read(b)) == b is decided per body in c14_bodies.rs / c14_submsg.rs (re-serialising a
+// parsed WHOLE message is intractable: see "outside" in tools/props/C14.py).
 // Frame-level special cases (octetsToNextHeader == 0, INFO_TS without a body, what "last
 // submessage" means) only exist in messages of several submessages, hence these harnesses.
 #![allow(dead_code, unused_imports, unused_macros, unused_variables, clippy::all)]
